@@ -543,6 +543,9 @@ class MetadorGroup(MetadorNode):
         }
         self.__wrapped__.copy(src_node.__wrapped__, dst_path, **copy_kwargs)  # RAW
         dst_node = self[dst_path]  # exists now
+        if src_node.name == "/":
+            # the container-level bookkeeping is not a part of the copied content
+            del dst_node.__wrapped__[M.METADOR_TOC_PATH.lstrip("/")]
 
         src_meta: str = src_node.meta._base_dir
         if src_is_dataset and not without_meta and src_meta in self.__wrapped__:
